@@ -363,8 +363,16 @@ Definition get_new_node_ids st (n : nat) : state * list Z :=
   (upd_nctr st c, ids').
 
 (* ---------- user actions ---------- *)
+(* Every user action is a core (validation + sub-actions, no history, no signal) wrapped
+   by the tail  `if _top_level: action_history.add_new_action(self); refresh.emit(x)`. *)
+Definition top_wrap (top : bool) (payload : option Z) (r : res action) : res action :=
+  match r with
+  | Ok a s => Ok a (if top then finish_top s a payload else s)
+  | Err e s => Err e s
+  end.
+
 (* UserDeleteEdge *)
-Definition user_delete_edge st u v (top : bool) : res action :=
+Definition user_delete_edge_core st u v : res action :=
   if negb (has_edge st u v) then Err (EInvalid false) st else
   do b1, s <- do_del_edge st u v;
   let od := out_degree s u in
@@ -379,11 +387,12 @@ Definition user_delete_edge st u v (top : bool) : res action :=
                        | None => Err EKey s end
                    | _, _ => Err EKey s end
                  else Err (EInvalid false) s);
-  let a := AGroup acts in
-  Ok a (if top then finish_top s a None else s).
+  Ok (AGroup acts) s.
+Definition user_delete_edge st u v (top : bool) : res action :=
+  top_wrap top None (user_delete_edge_core st u v).
 
 (* UserAddEdge *)
-Definition user_add_edge st u v (force top : bool) : res action :=
+Definition user_add_edge_core st u v (force : bool) : res action :=
   if negb (has_node st u) then Err (EInvalid false) st else
   if negb (has_node st v) then Err (EInvalid false) st else
   if time_of st u >=? time_of st v then Err (EInvalid false) st else
@@ -409,29 +418,42 @@ Definition user_add_edge st u v (force top : bool) : res action :=
                    | [] => Err EKey s end
                  else Err (EInvalid false) s);
   do b', s <- do_add_edge s u v [];
-  let a := AGroup (acts ++ [ABasic b']) in
-  Ok a (if top then finish_top s a None else s).
+  Ok (AGroup (acts ++ [ABasic b'])) s.
+Definition user_add_edge st u v (force top : bool) : res action :=
+  top_wrap top None (user_add_edge_core st u v force).
 
-(* UserDeleteNode *)
-Definition user_delete_node st n (pxo : option pixels) (top : bool) : res action :=
+(* UserDeleteNode: the three loops *)
+(* for pred in predecessors(node): [relabel the sibling]; DeleteEdge(pred, node) *)
+Fixpoint udn_preds (n : Z) (ps : list Z) (s : state) (acc : list action) : res (list action) :=
+  match ps with
+  | [] => Ok acc s
+  | p :: r =>
+    let sibs := successors s p in
+    do acc, s <- (if (length sibs =? 2)%nat then
+                    match remove1 n sibs, zattr s p KTrack with
+                    | sib :: _, Some t => do b, s <- do_upd_track s sib t None; Ok (acc ++ [ABasic b]) s
+                    | _, _ => Err EKey s end
+                  else Ok acc s);
+    do b, s <- do_del_edge s p n; udn_preds n r s (acc ++ [ABasic b])
+  end.
+(* for succ in successors(node): DeleteEdge(node, succ) *)
+Fixpoint udn_succs (n : Z) (cs : list Z) (s : state) (acc : list action) : res (list action) :=
+  match cs with [] => Ok acc s | c :: r => do b, s <- do_del_edge s n c; udn_succs n r s (acc ++ [ABasic b]) end.
+(* for orphan in orphans: UpdateTrackIDs(orphan, its track id, next lineage id) *)
+Fixpoint udn_orphans (os : list Z) (s : state) (acc : list action) : res (list action) :=
+  match os with
+  | [] => Ok acc s
+  | o :: r => match zattr s o KTrack with
+              | Some t => do b, s <- do_upd_track s o t (Some (next_lin s)); udn_orphans r s (acc ++ [ABasic b])
+              | None => Err EKey s end
+  end.
+Definition user_delete_node_core st n (pxo : option pixels) : res action :=
   if negb (has_node st n) then Err ENetworkX st else
   let preds := predecessors st n in
   let had_pred := match preds with [] => false | _ => true end in
-  do acts1, s <- (fix go (ps : list Z) (s : state) (acc : list action) : res (list action) :=
-      match ps with
-      | [] => Ok acc s
-      | p :: r =>
-        let sibs := successors s p in
-        do acc, s <- (if (length sibs =? 2)%nat then
-                        match remove1 n sibs, zattr s p KTrack with
-                        | sib :: _, Some t => do b, s <- do_upd_track s sib t None; Ok (acc ++ [ABasic b]) s
-                        | _, _ => Err EKey s end
-                      else Ok acc s);
-        do b, s <- do_del_edge s p n; go r s (acc ++ [ABasic b])
-      end) preds st [];
+  do acts1, s <- udn_preds n preds st [];
   let orphans := successors s n in
-  do acts2, s <- (fix go (cs : list Z) (s : state) (acc : list action) : res (list action) :=
-      match cs with [] => Ok acc s | c :: r => do b, s <- do_del_edge s n c; go r s (acc ++ [ABasic b]) end) orphans s acts1;
+  do acts2, s <- udn_succs n orphans s acts1;
   do ao, s <- (match zattr s n KTrack with
       | None => Err EKey s
       | Some T => let '(s, (p, c)) := track_neighbors s T (time_of s n) in
@@ -441,19 +463,30 @@ Definition user_delete_node st n (pxo : option pixels) (top : bool) : res action
       end);
   let '(acts3, orphans) := ao in
   let orphans := if had_pred then orphans else tl orphans in
-  do acts4, s <- (fix go (os : list Z) (s : state) (acc : list action) : res (list action) :=
-      match os with
-      | [] => Ok acc s
-      | o :: r => match zattr s o KTrack with
-                  | Some t => do b, s <- do_upd_track s o t (Some (next_lin s)); go r s (acc ++ [ABasic b])
-                  | None => Err EKey s end
-      end) orphans s acts3;
+  do acts4, s <- udn_orphans orphans s acts3;
   do b, s <- do_del_node s n pxo;
-  let a := AGroup (acts4 ++ [ABasic b]) in
-  Ok a (if top then finish_top s a None else s).
+  Ok (AGroup (acts4 ++ [ABasic b])) s.
+Definition user_delete_node st n (pxo : option pixels) (top : bool) : res action :=
+  top_wrap top None (user_delete_node_core st n pxo).
 
 (* UserAddNode *)
-Definition user_add_node st n (a : attrs) (px : option pixels) (force top : bool) : res action :=
+(* the edges that conflict with splicing the node in (removed when forcing) *)
+Definition uan_conflicts st (pred succ : option Z) (force : bool) : res (list (Z * Z)) :=
+  let down c := match predecessors st c with
+                | q :: _ => if out_degree st q =? 2
+                            then if negb force then Err (EInvalid true) st else Ok [(q, c)] st
+                            else Ok [] st
+                | [] => Ok [] st end in
+  match pred with
+  | Some p => if out_degree st p =? 2
+              then if negb force then Err (EInvalid true) st else Ok (map (fun s => (p, s)) (successors st p)) st
+              else (match succ with Some c => down c | None => Ok [] st end)
+  | None => (match succ with Some c => down c | None => Ok [] st end)
+  end.
+(* for conflicting_edge in conflicting_edges: UserDeleteEdge(..., _top_level=False) *)
+Fixpoint uan_cut (es : list (Z * Z)) (s : state) (acc : list action) : res (list action) :=
+  match es with [] => Ok acc s | e :: r => do x, s <- user_delete_edge s (fst e) (snd e) false; uan_cut r s (acc ++ [x]) end.
+Definition user_add_node_core st n (a : attrs) (px : option pixels) (force : bool) : res action :=
   match lookup KTime a, lookup KTrack a with
   | None, _ => Err (EInvalid false) st
   | _, None => Err (EInvalid false) st
@@ -463,27 +496,9 @@ Definition user_add_node st n (a : attrs) (px : option pixels) (force top : bool
   let T0 := match kv with VZ z => z | _ => 0 end in
   let '(T, a) := if has_track_at st T0 t then (next_trk st, set KTrack (VZ (next_trk st)) a) else (T0, a) in
   let '(st, (pred, succ)) := track_neighbors st T t in
-  do conflicts, st <- (match pred with
-      | Some p => if out_degree st p =? 2
-                  then if negb force then Err (EInvalid true) st else Ok (map (fun s => (p, s)) (successors st p)) st
-                  else (match succ with
-                        | Some c => match predecessors st c with
-                                    | q :: _ => if out_degree st q =? 2
-                                                then if negb force then Err (EInvalid true) st else Ok [(q, c)] st
-                                                else Ok [] st
-                                    | [] => Ok [] st end
-                        | None => Ok [] st end)
-      | None => (match succ with
-                 | Some c => match predecessors st c with
-                             | q :: _ => if out_degree st q =? 2
-                                         then if negb force then Err (EInvalid true) st else Ok [(q, c)] st
-                                         else Ok [] st
-                             | [] => Ok [] st end
-                 | None => Ok [] st end)
-      end);
+  do conflicts, st <- uan_conflicts st pred succ force;
   if (match px with None => negb (all_in (pos_keys (ft st)) a) | Some _ => false end) then Err (EInvalid false) st else
-  do acts, s <- (fix go (es : list (Z * Z)) (s : state) (acc : list action) : res (list action) :=
-      match es with [] => Ok acc s | e :: r => do x, s <- user_delete_edge s (fst e) (snd e) false; go r s (acc ++ [x]) end) conflicts st [];
+  do acts, s <- uan_cut conflicts st [];
   let a := if haskey KLin a then a else
      match (match pred, succ with
             | Some p, _ => zattr s p KLin
@@ -496,12 +511,13 @@ Definition user_add_node st n (a : attrs) (px : option pixels) (force top : bool
   do b, s <- do_add_node s n a px;
   do acts, s <- (match pred with Some p => do b', s <- do_add_edge s p n []; Ok (acts ++ [ABasic b; ABasic b']) s | None => Ok (acts ++ [ABasic b]) s end);
   do acts, s <- (match succ with Some c => do b', s <- do_add_edge s n c []; Ok (acts ++ [ABasic b']) s | None => Ok acts s end);
-  let act := AGroup acts in
-  Ok act (if top then finish_top s act (Some n) else s)
+  Ok (AGroup acts) s
   end.
+Definition user_add_node st n (a : attrs) (px : option pixels) (force top : bool) : res action :=
+  top_wrap top (Some n) (user_add_node_core st n a px force).
 
-(* UserSwapPredecessors *)
-Definition user_swap st n1 n2 : res action :=
+(* UserSwapPredecessors (always top level) *)
+Definition user_swap_core st n1 n2 : res action :=
   if negb (has_node st n1) || negb (has_node st n2) then Err ENetworkX st else
   let p1 := hd_error (predecessors st n1) in let p2 := hd_error (predecessors st n2) in
   match p1, p2 with
@@ -515,55 +531,65 @@ Definition user_swap st n1 n2 : res action :=
     do a2, s <- (match p2 with Some p => do a, s <- user_delete_edge s p n2 false; Ok (a1 ++ [a]) s | None => Ok a1 s end);
     do a3, s <- (match p1 with Some p => do a, s <- user_add_edge s p n2 false false; Ok (a2 ++ [a]) s | None => Ok a2 s end);
     do a4, s <- (match p2 with Some p => do a, s <- user_add_edge s p n1 false false; Ok (a3 ++ [a]) s | None => Ok a3 s end);
-    let a := AGroup a4 in Ok a (finish_top s a None)
+    Ok (AGroup a4) s
   end.
+Definition user_swap st n1 n2 : res action := top_wrap true None (user_swap_core st n1 n2).
 
-(* UserUpdateNodeAttrs *)
-Definition user_update_attrs st n (new : attrs) : res action :=
-  do b, s <- do_upd_attrs st n new;
-  let a := AGroup [ABasic b] in Ok a (finish_top s a None).
+(* UserUpdateNodeAttrs (always top level) *)
+Definition user_update_attrs_core st n (new : attrs) : res action :=
+  do b, s <- do_upd_attrs st n new; Ok (AGroup [ABasic b]) s.
+Definition user_update_attrs st n (new : attrs) : res action := top_wrap true None (user_update_attrs_core st n new).
 
 (* UserUpdateSegmentation, called after the caller painted [new_value] into the array.
    groups: (pixels, previous value) per previous label, as the caller passes them. *)
-Definition user_update_seg st (new_value : Z) (groups : list (pixels * Z)) (T : Z) (force : bool) : res action :=
+(* for pixels, old_value in updated_pixels: delete or shrink the overwritten node *)
+Fixpoint uus_groups (gs : list (pixels * Z)) (s : state) (acc : list action) : res (list action) :=
+  match gs with
+  | [] => Ok acc s
+  | (px, old) :: r =>
+    if old =? 0 then uus_groups r s acc else
+    let remaining := match seg s with Some sg => mask_of sg (fst px) old | None => [] end in
+    match remaining with
+    | [] => do a, s <- user_delete_node s old (Some px) false; uus_groups r s (acc ++ [a])
+    | _ => do b, s <- do_upd_seg s old px false; uus_groups r s (acc ++ [ABasic b])
+    end
+  end.
+(* for action in reversed(self.actions): action.inverse() *)
+Fixpoint rollback (l : list action) (s : state) : res unit :=
+  match l with [] => Ok tt s | x :: r => do _i, s <- inv_action s x; rollback r s end.
+(* returns the recorded group and the payload of the refresh signal *)
+Definition user_update_seg_core st (new_value : Z) (groups : list (pixels * Z)) (T : Z) (force : bool) : res (action * option Z) :=
   match seg st with
   | None => Err EValue st
   | Some _ =>
   if (negb (new_value =? 0)) && (match groups with [] => false | _ => true end) && has_node st new_value
      && negb (time_of st new_value =? match groups with (px, _) :: _ => fst px | [] => 0 end)
   then Err (EInvalid false) st else
-  do acts, s <- (fix go (gs : list (pixels * Z)) (s : state) (acc : list action) : res (list action) :=
-      match gs with
-      | [] => Ok acc s
-      | (px, old) :: r =>
-        if old =? 0 then go r s acc else
-        let remaining := match seg s with Some sg => mask_of sg (fst px) old | None => [] end in
-        match remaining with
-        | [] => do a, s <- user_delete_node s old (Some px) false; go r s (acc ++ [a])
-        | _ => do b, s <- do_upd_seg s old px false; go r s (acc ++ [ABasic b])
-        end
-      end) groups st [];
+  do acts, s <- uus_groups groups st [];
   match groups with
-  | [] => let a := AGroup acts in Ok a (finish_top s a None)
+  | [] => Ok (AGroup acts, None) s
   | (px0, _) :: _ =>
-    if new_value =? 0 then let a := AGroup acts in Ok a (finish_top s a None) else
+    if new_value =? 0 then Ok (AGroup acts, None) s else
     let allpx : pixels := (fst px0, flat_map (fun g => snd (fst g)) groups) in
     if has_node s new_value then
       do b, s <- do_upd_seg s new_value allpx true;
-      let a := AGroup (acts ++ [ABasic b]) in Ok a (finish_top s a None)
+      Ok (AGroup (acts ++ [ABasic b]), None) s
     else
       match user_add_node s new_value [(KTime, VZ (fst px0)); (KTrack, VZ T)] (Some allpx) force false with
-      | Ok x s => let a := AGroup (acts ++ [x]) in Ok a (finish_top s a (Some new_value))
+      | Ok x s => Ok (AGroup (acts ++ [x]), Some new_value) s
       | Err (EInvalid f) s =>
-          (* roll back: for action in reversed(self.actions): action.inverse() *)
-          match (fix back (l : list action) (s : state) : res unit :=
-                   match l with [] => Ok tt s | x :: r => do _i, s <- inv_action s x; back r s end) (rev acts) s with
+          match rollback (rev acts) s with
           | Ok _ s' => Err (EInvalid f) s'
           | Err e s' => Err e s'
           end
       | Err e s => Err e s
       end
   end
+  end.
+Definition user_update_seg st (new_value : Z) (groups : list (pixels * Z)) (T : Z) (force : bool) : res action :=
+  match user_update_seg_core st new_value groups T force with
+  | Ok (a, payload) s => Ok a (finish_top s a payload)
+  | Err e s => Err e s
   end.
 
 (* the caller's side of a paint stroke: previous values grouped per label, array painted *)
@@ -575,6 +601,9 @@ Definition paint_groups (sg : list (list Z)) (t : Z) (idx : list Z) (new_value :
   let io := filter (fun p => negb (snd p =? new_value)) (olds_of 0 (frame_of sg t) idx) in
   let vals := fold_left (fun acc p => insert_sorted (snd p) acc) io [] in       (* np.unique: ascending *)
   map (fun v => ((t, map fst (filter (fun p => snd p =? v) io)), v)) vals.
+(* the caller restores the pixels it painted *)
+Definition restore_groups (t : Z) (groups : list (pixels * Z)) (sg : list (list Z)) : list (list Z) :=
+  fold_left (fun acc g => upd_frame (Z.to_nat t) (fun f => write_frame 0 f (snd (fst g)) (snd g)) acc) groups sg.
 Definition paint st (new_value t : Z) (idx : list Z) (T : Z) (force : bool) : res action :=
   match seg st with
   | None => user_update_seg st new_value [] T force
@@ -586,11 +615,7 @@ Definition paint st (new_value t : Z) (idx : list Z) (T : Z) (force : bool) : re
     match user_update_seg painted new_value groups T force with
     | Ok a s => Ok a s
     | Err e s =>
-        (* the caller restores the pixels it painted *)
-        let s' := match seg s with
-                  | Some sg' => upd_seg s (Some (fold_left (fun acc g => upd_frame (Z.to_nat t) (fun f => write_frame 0 f (snd (fst g)) (snd g)) acc) groups sg'))
-                  | None => s end in
-        Err e s'
+        Err e (match seg s with Some sg' => upd_seg s (Some (restore_groups t groups sg')) | None => s end)
     end
   end.
 
